@@ -161,9 +161,9 @@ def gen_module(rng, modname, with_async_gen=False):
     return "".join(src), funcs
 
 
-def make_workload(rng, funcs, n_steps):
+def make_workload(rng, funcs, n_steps, vals=None):
     """a workload is a list of steps; generators are advanced in random interleavings"""
-    vals = Vals(rng)
+    vals = vals or Vals(rng)
     steps = []
     for _ in range(n_steps):
         f = rng.choice(funcs)
@@ -254,3 +254,103 @@ class ProgramDir:
         for m in self.mods:
             sys.modules.pop(m, None)
         shutil.rmtree(self.dir, ignore_errors=True)
+
+
+# ---------------------------------------------------------------------------------------------------
+# C01: the same modules with every function's parameters renamed apart (so that generated TypedDict
+# class names, which MonkeyType derives from the parameter name, do not collide across functions) and
+# some truthful existing annotations (`object`) for the annotation-strategy flags to act on.
+
+def uniquify_params(src, funcs, rng=None, annotate_p=0.0):
+    """returns (new source, new funcs, {qualname: {old: new}}, annotated positions {(qualname, name|'return')})"""
+    import ast
+    tree = ast.parse(src)
+    maps = {}
+    annotated = set()
+    counter = [0]
+
+    class R(ast.NodeTransformer):
+        def __init__(self):
+            self.scopes = [{}]
+            self.path = []
+
+        def _func(self, node):
+            qual = ".".join(self.path + [node.name])
+            counter[0] += 1
+            tag = "_f%dx" % counter[0]
+            a = node.args
+            own = {}
+            allargs = a.posonlyargs + a.args + a.kwonlyargs + ([a.vararg] if a.vararg else []) + ([a.kwarg] if a.kwarg else [])
+            for x in allargs:
+                if x.arg not in ("self", "cls"):
+                    own[x.arg] = x.arg + tag
+            maps[qual] = own
+            scope = dict(self.scopes[-1])
+            scope.update(own)
+            # defaults are evaluated in the enclosing scope
+            a.defaults = [self.visit(d) for d in a.defaults]
+            a.kw_defaults = [self.visit(d) if d is not None else None for d in a.kw_defaults]
+            node.decorator_list = [self.visit(d) for d in node.decorator_list]
+            for x in allargs:
+                if x.arg in own:
+                    old = x.arg
+                    x.arg = own[old]
+                    if rng is not None and rng.random() < annotate_p:
+                        x.annotation = ast.Name("object", ast.Load())
+                        annotated.add((qual, x.arg))
+            if rng is not None and rng.random() < annotate_p:
+                node.returns = ast.Name("object", ast.Load())
+                annotated.add((qual, "return"))
+            self.scopes.append(scope)
+            self.path += [node.name, "<locals>"]
+            node.body = [self.visit(s) for s in node.body]
+            self.path = self.path[:-2]
+            self.scopes.pop()
+            return node
+
+        def visit_FunctionDef(self, node):
+            return self._func(node)
+        visit_AsyncFunctionDef = visit_FunctionDef
+
+        def visit_ClassDef(self, node):
+            self.path.append(node.name)
+            self.generic_visit(node)
+            self.path.pop()
+            return node
+
+        def visit_Name(self, node):
+            m = self.scopes[-1]
+            if node.id in m:
+                node.id = m[node.id]
+            return node
+
+        def visit_keyword(self, node):
+            self.generic_visit(node)
+            m = self.scopes[-1]
+            if node.arg in m:
+                node.arg = m[node.arg]
+            return node
+
+        def visit_Compare(self, node):
+            # the `'a' in dir()` idiom of body_exit
+            self.generic_visit(node)
+            m = self.scopes[-1]
+            if isinstance(node.left, ast.Constant) and isinstance(node.left.value, str) and node.left.value in m and \
+                    len(node.comparators) == 1 and isinstance(node.comparators[0], ast.Call) and \
+                    getattr(node.comparators[0].func, "id", None) == "dir":
+                node.left = ast.Constant(m[node.left.value])
+            return node
+
+    tree = R().visit(tree)
+    ast.fix_missing_locations(tree)
+    new_src = ast.unparse(tree) + "\n"
+    new_funcs = []
+    for f in funcs:
+        m = maps.get(f["qual"], {})
+        g = dict(f)
+        g["params"] = [m.get(p, p) for p in f["params"]]
+        mk = f["mk"]
+        if mk is not None:
+            g["mk"] = (lambda mk, m: (lambda v: (lambda ak: (ak[0], {m.get(k, k): x for k, x in ak[1].items()}))(mk(v))))(mk, m)
+        new_funcs.append(g)
+    return new_src, new_funcs, maps, annotated
